@@ -6,9 +6,11 @@ mod v;
 mod gen;
 mod dump;
 mod build;
+mod bin;
 mod world;
 mod c01;
 mod cworld;
+mod cbin;
 mod c12;
 
 use rng::Rng;
@@ -40,6 +42,8 @@ fn main() {
         "C01" => c01::cases(&mut rng, count, tier),
         "C02" | "C03" | "C19" => cworld::cases_simple(&mut rng, count, tier, prop),
         "C15" => cworld::cases_c15(&mut rng, count, tier),
+        "C07" => cbin::cases_c07(&mut rng, count, tier),
+        "C08" => cbin::cases_c08(&mut rng, count, tier),
         "C16" => cworld::cases_c16(&mut rng, count, tier),
         "C12" => c12::cases(&mut rng, count, tier),
         _ => {
